@@ -26,6 +26,11 @@ fn parse_decimal_exactly(s: &str) -> Option<Ratio<BigInt>> {
     if let Some(dot_pos) = base_str.find('.') {
         let integer_part = &base_str[..dot_pos];
         let fractional_part = &base_str[dot_pos + 1..];
+        // the sign belongs to the whole mantissa, not just to the digits before the point
+        let (negative, integer_part) = match integer_part.strip_prefix('-') {
+            Some(rest) => (true, rest),
+            None => (false, integer_part.strip_prefix('+').unwrap_or(integer_part)),
+        };
         // reject "." (but "1." and ".1" are both fine)
         if integer_part.is_empty() && fractional_part.is_empty() {
             return None;
@@ -37,6 +42,8 @@ fn parse_decimal_exactly(s: &str) -> Option<Ratio<BigInt>> {
 
         let integer_digits: BigInt = if integer_part.is_empty() {
             BigInt::from(0)
+        } else if integer_part.starts_with(['+', '-']) {
+            return None;
         } else {
             integer_part.parse().ok()?
         };
@@ -49,6 +56,7 @@ fn parse_decimal_exactly(s: &str) -> Option<Ratio<BigInt>> {
         let decimal_places = fractional_part.len();
         let base_value =
             integer_digits * BigInt::from(10).pow(decimal_places as u32) + fractional_digits;
+        let base_value = if negative { -base_value } else { base_value };
 
         Some(apply_exp10(base_value, exponent - (decimal_places as i32)))
     } else {
